@@ -11,7 +11,7 @@ import (
 
 //assume: C16.routes: two requests that differ only in forwarding / real-client-IP headers; reverse-proxy off (so no real-client-IP parser is configured: validation only installs one in reverse-proxy mode)
 
-func vC16RouteReq(tag, method, path string, withFwd bool) *http.Request {
+func vC16RouteReq(tag, method, path, host string, withFwd bool) *http.Request {
 	h := http.Header{}
 	var keys []string
 	if withFwd {
@@ -22,7 +22,7 @@ func vC16RouteReq(tag, method, path string, withFwd bool) *http.Request {
 			h[k] = []string{ndString(tag + "-" + k)}
 		}
 	}
-	req := &http.Request{Method: method, Host: "app.example", URL: &url.URL{Path: path}, Header: h, RemoteAddr: "@"}
+	req := &http.Request{Method: method, Host: host, URL: &url.URL{Path: path}, Header: h, RemoteAddr: "@"}
 	return middlewareapi.AddRequestScope(req, &middlewareapi.RequestScope{ReverseProxy: false})
 }
 
@@ -36,8 +36,13 @@ func vh_C16_routes() {
 	method := ndString("method")
 	path := ndString("path")
 	verifAssume(vC15SafePath.MatchString(path))
-	r1 := vC16RouteReq("r1", method, path, false)
-	r2 := vC16RouteReq("r2", method, path, true)
+	// an HTTP/1.0 request may carry no Host at all
+	host := "app.example"
+	if ndBool("request-without-host") {
+		host = ""
+	}
+	r1 := vC16RouteReq("r1", method, path, host, false)
+	r2 := vC16RouteReq("r2", method, path, host, true)
 	verifAssert("C16.routes.same-bypass", p.isAllowedRoute(r1) == p.isAllowedRoute(r2))
 	verifAssert("C16.routes.same-api-path", p.isAPIPath(r1) == p.isAPIPath(r2))
 	verifAssert("C16.routes.same-trusted-ip", p.isTrustedIP(r1) == p.isTrustedIP(r2))
